@@ -51,11 +51,18 @@ def main():
         i = args.index("-j"); j = int(args[i + 1]); del args[i:i + 2]
     ids = args or sorted(x for x in os.listdir(os.path.join(ROOT, "seeded")) if os.path.isdir(os.path.join(ROOT, "seeded", x)))
     out_json = os.path.join(ROOT, "seeded", "RESULTS.json")
-    results = json.load(open(out_json)) if os.path.exists(out_json) else {}
+    import fcntl
+    results = {}
     with ThreadPoolExecutor(max_workers=j) as ex:
         for mid, res in ex.map(one, ids):
-            results[mid] = res
-    json.dump(results, open(out_json, "w"), indent=1, sort_keys=True)
+            # merge under a lock: several eval_all runs may be in flight
+            with open(out_json + ".lock", "w") as lk:
+                fcntl.flock(lk, fcntl.LOCK_EX)
+                results = json.load(open(out_json)) if os.path.exists(out_json) else {}
+                if res:
+                    results[mid] = res
+                json.dump(results, open(out_json + ".tmp", "w"), indent=1, sort_keys=True)
+                os.replace(out_json + ".tmp", out_json)
     head = subprocess.check_output(["git", "-C", ROOT, "rev-parse", "--short", "HEAD"]).decode().strip()
     with open(os.path.join(ROOT, "seeded", "RESULTS.md"), "w") as f:
         f.write("# Seeded changes versus the checks\n\n")
